@@ -10,8 +10,8 @@ import (
 	"github.com/linxGnu/grocksdb"
 
 	"verif/harness/internal/fw"
-	lab "verif/harness/internal/mptlab"
 	"verif/harness/internal/model"
+	lab "verif/harness/internal/mptlab"
 )
 
 // C02 — the root is a canonical, format-stable commitment to content.
